@@ -21,12 +21,23 @@ type solverDef struct {
 
 var solverSeed = 0
 
+// stagedOrder: start delay per portfolio member (same order as solvers).
+var stagedOrder = []time.Duration{400 * time.Millisecond, 400 * time.Millisecond, 0, 0}
+
+// procTokens bounds the number of solver processes running at once.
+var procTokens = make(chan struct{}, 16)
+
 var solvers = []solverDef{
 	{"z3-4.8.12", func(f string, t int, seed int) []string {
 		return []string{"/usr/bin/z3", fmt.Sprintf("-T:%d", t), fmt.Sprintf("smt.random_seed=%d", seed), fmt.Sprintf("sat.random_seed=%d", seed), f}
 	}, nil},
 	{"z3-5.1.0", func(f string, t int, seed int) []string {
 		return []string{"z3-new", fmt.Sprintf("-T:%d", t), fmt.Sprintf("smt.random_seed=%d", seed), fmt.Sprintf("sat.random_seed=%d", seed), f}
+	}, nil},
+	// pure E-matching (no model-based instantiation, no auto-configuration):
+	// decides pattern-driven obligations that the default strategy loses itself in
+	{"z3-5.1.0-ematch", func(f string, t int, seed int) []string {
+		return []string{"z3-new", fmt.Sprintf("-T:%d", t), "smt.mbqi=false", "smt.auto_config=false", fmt.Sprintf("smt.random_seed=%d", seed), f}
 	}, nil},
 	{"cvc5-1.0", func(f string, t int, seed int) []string {
 		return []string{"cvc5", fmt.Sprintf("--tlimit=%d", t*1000), fmt.Sprintf("--seed=%d", seed), "--lang=smt2", f}
@@ -57,7 +68,7 @@ func runSolversSeed(dir string, id int, query string, timeoutS int, wantModel bo
 	if err := os.WriteFile(file, []byte(q), 0o644); err != nil {
 		return solveResult{verdict: "error", out: err.Error()}
 	}
-	ctx, cancel := context.WithTimeout(context.Background(), time.Duration(timeoutS+2)*time.Second)
+	ctx, cancel := context.WithCancel(context.Background())
 	defer cancel()
 	type one struct {
 		r solveResult
@@ -65,26 +76,57 @@ func runSolversSeed(dir string, id int, query string, timeoutS int, wantModel bo
 	ch := make(chan solveResult, len(solvers))
 	n := 0
 	start := time.Now()
-	for _, s := range solvers {
+	for k, s := range solvers {
 		if only != "" && !strings.Contains(s.name, only) {
 			continue
 		}
 		n++
 		s := s
+		// staged portfolio: most queries are decided within milliseconds by the
+		// first two back ends; the others join after a short delay
+		delay := time.Duration(0)
+		if only == "" && k < len(stagedOrder) {
+			delay = stagedOrder[k]
+		}
 		go func() {
+			if delay > 0 {
+				select {
+				case <-time.After(delay):
+				case <-ctx.Done():
+					ch <- solveResult{verdict: "unknown", solver: s.name, out: "cancelled"}
+					return
+				}
+			}
+			// at most one solver process per core: a starved solver times out
+			// for no semantic reason
+			select {
+			case procTokens <- struct{}{}:
+			case <-ctx.Done():
+				ch <- solveResult{verdict: "unknown", solver: s.name, out: "cancelled"}
+				return
+			}
+			defer func() { <-procTokens }()
+			pctx, pcancel := context.WithTimeout(ctx, time.Duration(timeoutS+2)*time.Second)
+			defer pcancel()
 			a := s.args(file, timeoutS, seed)
-			cmd := exec.CommandContext(ctx, a[0], a[1:]...)
+			cmd := exec.CommandContext(pctx, a[0], a[1:]...)
 			var out bytes.Buffer
 			cmd.Stdout = &out
 			cmd.Stderr = &out
 			t0 := time.Now()
 			_ = cmd.Run()
 			o := out.String()
-			first := strings.TrimSpace(strings.SplitN(o, "\n", 2)[0])
+			// the verdict is the first line that is not a solver warning
 			v := "unknown"
-			switch first {
-			case "unsat", "sat":
-				v = first
+			for _, ln := range strings.Split(o, "\n") {
+				ln = strings.TrimSpace(ln)
+				if ln == "" || strings.HasPrefix(ln, "WARNING") {
+					continue
+				}
+				if ln == "unsat" || ln == "sat" {
+					v = ln
+				}
+				break
 			}
 			ch <- solveResult{verdict: v, solver: s.name, out: o, dur: time.Since(t0).Seconds()}
 		}()
@@ -134,6 +176,16 @@ func discharge(obls []*Obligation, dir string, timeoutS int, workers int) {
 				to = 4
 			}
 			r := runSolvers(dir, i, ob.Query, to, false, "")
+			if r.verdict == "unknown" && !knownFailing[ob.Name] && !ob.Cover {
+				// fewer hypotheses: without facts about dead heap versions and
+				// unrelated specification functions (only `unsat` counts there)
+				if pq, ok := pruneStale(ob.Query); ok {
+					if rp := runSolvers(dir, i*1000+999, pq, to, false, ""); rp.verdict == "unsat" {
+						rp.solver += "+pruned"
+						r = rp
+					}
+				}
+			}
 			splitTried := false
 			if r.verdict == "unknown" && !knownFailing[ob.Name] && !ob.Cover && ob.Goal != "" {
 				if rs, ok := solveSplit(dir, i, ob, timeoutS); ok {
@@ -203,6 +255,14 @@ func solveSplit(dir string, id int, ob *Obligation, timeoutS int) (solveResult, 
 		}
 		sid := id*1000 + 500 + k
 		r := runSolvers(dir, sid, q, timeoutS, false, "")
+		if r.verdict == "unknown" {
+			if pq, ok := pruneStale(q); ok {
+				if rp := runSolvers(dir, sid+250, pq, timeoutS, false, ""); rp.verdict == "unsat" {
+					rp.solver += "+pruned"
+					r = rp
+				}
+			}
+		}
 		if r.verdict == "unknown" {
 			for _, sd := range []int{solverSeed + 7, solverSeed + 13, solverSeed + 101} {
 				r = runSolversSeed(dir, sid, q, timeoutS, false, "", sd)
